@@ -24,85 +24,29 @@ def check(ctx):
     rr = R.discover(m, er)
     cb, prep = rr.runcb, rr.prep_run
     mod = cb.module
-    # ---------------------------------------------------------------- G1
+    # ---------------------------------------------------------------- G1-G3, evaluated on a symbolic plan (x; c = f(x, 7, k=x)):
+    # the bound call is dropped on success and on failure, and afterwards the result of x is unreachable in the abstract
+    # heap from everything preparation handed out (whatever table / closure / record would hold it)
+    from .evalrules import rule_run_callback
+    before = len(ctx.obligations)
+    ctx.run(lambda c_: rule_run_callback(c_, rr, rid_release="C16.G1", rid_slots="C16.G2"))
+    for o in ctx.obligations[before:]:
+        if "/unreachable-" in o["instance"]:
+            o["rule"] = "C16.G3"
+    # the failed call's frame is pinned by the recorded error's traceback: the BoundCall must not sit in a local of the callback
     runs = [c for c in cb.own_calls() if rr.bound_run in m.callee_funcs(cb, c)]
-    if len(runs) != 1:
-        raise AnalysisError("C16: the call executing the bound call not found in the run callback")
-    rc = runs[0]
-    cell = rc.func.value.value if isinstance(rc.func, ast.Attribute) and isinstance(rc.func.value, ast.Attribute) else None
-    if not isinstance(cell, ast.Name):
-        # the BoundCall was unwrapped into a local first
+    for rc in runs:
         recv = rc.func.value if isinstance(rc.func, ast.Attribute) else None
-        unwrapped = None
         if isinstance(recv, ast.Name):
-            for k, e, p_ in cb.bindings.get(recv.id, []):
-                if k == "assign" and isinstance(e, ast.Attribute) and e.attr == "value" and isinstance(e.value, ast.Name):
-                    unwrapped = (recv.id, e.value)
-        if unwrapped is None:
-            raise AnalysisError("C16: bound-call cell variable not recognised")
-        ctx.ob("C16.G1", f"{cb.short}/bound-call-not-a-local", False, loc(cb, rc),
-               f"the BoundCall is bound to the local `{unwrapped[0]}` of the run callback: when the call fails, the recorded NodeError's "
-               f"traceback pins this frame, so the failed call's argument slots stay referenced until the run ends", norm(rc)[:80])
-        cell = unwrapped[1]
-    else:
-        ctx.ob("C16.G1", f"{cb.short}/bound-call-not-a-local", True, loc(cb, rc), "the BoundCall is reached only through its cell (no local keeps it)")
-    clears = [n for n in cb.own_nodes() if isinstance(n, ast.Assign) and norm(n.targets[0]) == f"{cell.id}.value" and
-              isinstance(n.value, ast.Constant) and n.value.value is None]
-    ctx.floor("C16.G1", "statements clearing the bound-call cell", len(clears), 1)
-    for cl in clears:
-        tries = [t for t in cb.own_nodes() if isinstance(t, ast.Try) and in_body(mod, cl, t, "finalbody") and in_body(mod, rc, t, "body")]
-        ok = bool(tries)
-        ctx.ob("C16.G1", f"{cb.short}/release-in-finally", ok, loc(cb, cl),
-               "the bound call is dropped in a finally covering the call" if ok else
-               "the bound call is dropped only when the call succeeds: a failed call keeps every result it consumed alive "
-               "until the end of the run (max_errors lets the run continue)", norm(cl))
-    b = [x for x in cb.bindings.get(cell.id, []) if x[0] == "assign"]
-    ok = len(b) == 1 and isinstance(b[0][1], ast.Subscript) and is_name(b[0][1].slice, cb.pos_params[0])
-    ctx.ob("C16.G1", f"{cb.short}/own-cell", ok, loc(cb), "the cell cleared is the current node's" if ok else "the cleared cell is not the current node's")
-    # ---------------------------------------------------------------- G2
-    makers = [f for f in m.funcs.values() if f.module is prep.module and any(isinstance(n, ast.DictComp) and "Slot(" in norm(n.value) and "Literal" in norm(n.value) for n in f.own_nodes())]
-    if len(makers) != 1:
-        raise AnalysisError("C16: function building the slot table not found")
-    mk = makers[0]
-    tbl = None
-    for nm, bs in mk.bindings.items():
-        for k, e, p_ in bs:
-            if k == "assign" and isinstance(e, ast.DictComp) and "Slot(" in norm(e.value) and "Literal" in norm(e.value):
-                tbl = nm
-    rets = [n for n in mk.own_nodes() if isinstance(n, ast.Return) and n.value is not None]
-    escaped = [r_ for r_ in rets if any(isinstance(x, ast.Name) and x.id == tbl and not isinstance(mk.module.parent.get(x), ast.Subscript) for x in ast.walk(r_.value))]
-    ctx.ob("C16.G2", f"{mk.short}/{tbl}-not-returned", not escaped, loc(mk), "the slot table is not returned" if not escaped else
-           "the slot table is returned: every result stays referenced for the whole run", norm(escaped[0]) if escaped else "")
-    stored = [n for n in mk.own_nodes() if isinstance(n, ast.Assign) and isinstance(n.targets[0], (ast.Attribute,)) and tbl in names_in(n.value)
-              and not isinstance(n.value, ast.Subscript)]
-    glob = tbl in mk.globals_ or tbl in mk.nonlocals
-    ctx.ob("C16.G2", f"{mk.short}/{tbl}-not-stored", not stored and not glob, loc(mk), "the slot table is not stored in an attribute/global")
-    captured = [f for f in mk.all_nested() if any(isinstance(n, ast.Name) and n.id == tbl for n in f.own_nodes())
-                and not isinstance(f.node, ast.Lambda)]
-    ctx.ob("C16.G2", f"{mk.short}/{tbl}-not-captured", not captured, loc(mk), "no closure captures the slot table")
-    # the named tuple returned by preparation does not carry it either
-    prets = [n for n in prep.own_nodes() if isinstance(n, ast.Return) and n.value is not None]
-    for r_ in prets:
-        names = names_in(r_.value)
-        bad = [nm for nm in names if any(k == "assign" and isinstance(e, ast.DictComp) and "Slot(" in norm(e.value) for k, e, p_ in prep.bindings.get(nm, []))]
-        ctx.ob("C16.G2", f"{prep.short}/result-without-slot-table", not bad, loc(prep, r_), "preparation returns only the bound-call table, output slot, callback and plan" if not bad else
-               f"preparation returns the slot table {bad}", norm(r_)[:100])
+            unwrapped = [e for k, e, p_ in cb.bindings.get(recv.id, []) if k == "assign" and isinstance(e, ast.Attribute) and e.attr == "value"]
+            ctx.ob("C16.G1", f"{cb.short}/bound-call-not-a-local", not unwrapped, loc(cb, rc),
+                   "the BoundCall is reached only through its cell (no local keeps it)" if not unwrapped else
+                   f"the BoundCall is bound to the local `{recv.id}` of the run callback: when the call fails, the recorded NodeError's "
+                   f"traceback pins this frame, so the failed call's argument slots stay referenced until the run ends", norm(rc)[:80])
+        else:
+            ctx.ob("C16.G1", f"{cb.short}/bound-call-not-a-local", True, loc(cb, rc), "the BoundCall is reached only through its cell (no local keeps it)")
     from .extra import rule_result_slots
     ctx.run(rule_result_slots, "C16.G4")
-    # ---------------------------------------------------------------- G3
-    free = sorted({n.id for n in cb.own_nodes() if isinstance(n, ast.Name) and isinstance(n.ctx, ast.Load) and m.binding_scope(cb, n.id) is prep})
-    ctx.floor("C16.G3", "variables captured by the run callback", len(free), 2)
-    for v in free:
-        bs = prep.bindings.get(v, [])
-        kind = None
-        if any(k == "param" for k, _e, _p in bs) and ("observer" in v or "retry" in v):
-            kind = "observer/retry parameter"
-        for k, e, p_ in bs:
-            if k == "assign" and isinstance(e, ast.Call) and mk in m.callee_funcs(prep, e) and p_ == (0,):
-                kind = "bound-call table"
-        ok = kind is not None
-        ctx.ob("C16.G3", f"{cb.short}/captures-{v}", ok, loc(cb), f"captures {v} ({kind})" if ok else
-               f"the run callback captures `{v}`, which keeps results (or the whole plan) referenced for the entire run")
     # ---------------------------------------------------------------- G4
     br = rr.bound_run
     stores = [n for n in br.own_nodes() if isinstance(n, ast.Assign) and any(isinstance(c, ast.Call) and isinstance(c.func, ast.Call) for c in ast.walk(n.value))]
